@@ -61,6 +61,20 @@ class Desc:
                     return ("opt", self.of(cl["body"], env2, depth + 1))
                 if cl.get("k") == "def" and (cl.get("path") or "").endswith("Option::Some"):
                     return ("opt", ("opt", ("payload", inner)))
+        if k in ("match", "if"):
+            # `match o { Some(x) => f(x), None => None / continue }` is `o.map(f)` / the payload on the path that goes on
+            oe = norm.opt_elim(e)
+            if oe is not None and oe["none"] is not None:
+                nn = norm.tail_value(oe["none"])
+                none_is_none = nn.get("k") == "def" and (nn.get("path") or "").endswith("Option::None")
+                if none_is_none or norm._diverges(oe["none"]) or nn.get("ty") == "!":
+                    inner = self.of(oe["scrut"], env, depth + 1)
+                    env2 = dict(env)
+                    if oe["bind"] is not None:
+                        env2[oe["bind"]] = ("payload", inner)
+                    if oe["some"] is None:
+                        return ("payload", inner)
+                    return self.of(oe["some"], env2, depth + 1)
         if k == "blockexpr":
             env2 = dict(env)
             for s_ in e["b"]["stmts"]:
